@@ -468,6 +468,11 @@ impl Server {
                             .graph()
                             .collect(&key)
                             .change_key(&key, &params.new_name.clone().into(), &key.parent())
+                            // the note may move to another directory: its links move with it
+                            .relocate(
+                                &key.parent(),
+                                &Key::from_file_name(&params.new_name).parent(),
+                            )
                             .iter(),
                     );
 
